@@ -40,6 +40,11 @@ impl Default for LefGenOpts {
 pub fn gen_name(src: &mut Src) -> String {
     const FIRST: &[u8] = b"abcdefghijklmnopqrstuvwxyzABCDEFGHIJKLMNOPQRSTUVWXYZ";
     const REST: &[u8] = b"abcdefghijklmnopqrstuvwxyzABCDEFGHIJKLMNOPQRSTUVWXYZ0123456789_[]<>/.$-!:";
+    // one name in six comes from a small pool, so that names coincide: two macros, a macro and its pin, a layer
+    // and a via, names that differ only in case
+    if src.prob(1, 6) {
+        return src.pick(&["a", "A", "aa", "m1", "M1", "VDD", "vdd", "core", "x1", "a[0]", "a<0>"]).to_string();
+    }
     let n = src.usize_in(1, 10);
     let mut s = String::new();
     s.push(FIRST[src.index(FIRST.len())] as char);
@@ -61,10 +66,12 @@ pub fn gen_name(src: &mut Src) -> String {
 /// A decimal with <= 9 integer and <= 6 fractional digits
 pub fn gen_dec(src: &mut Src) -> LefDecimal {
     let scale = src.weighted(&[3, 2, 2, 2, 1, 1, 1]) as u32;
-    let m = match src.weighted(&[5, 3, 1]) {
+    let m = match src.weighted(&[5, 3, 1, 2]) {
         0 => src.signed(5000),
         1 => src.signed(999_999_999),
-        _ => 0,
+        2 => 0,
+        // a few favourite values, so that numbers coincide (x = y, two equal corners, a size equal to a pitch)
+        _ => return *src.pick(&[LefDecimal::new(1, 0), LefDecimal::new(5, 1), LefDecimal::new(100, 0), LefDecimal::new(-1, 0), LefDecimal::new(25, 2), LefDecimal::new(2, 0)]),
     };
     LefDecimal::new(m, scale)
 }
